@@ -19,6 +19,14 @@ location is the guard of the patch registered for it (`patch.Guard()`, patch.go:
 for its targets.  The origin placeholder of target `f` is the location `plh f` (the probe gives every target
 its own placeholder variable).
 
+Conditions are evaluated when the micro instruction executes, as in the source (`if g != nil && g.applied` inside the lock,
+`if _, ok := patches[p.originPtr]`); `register` merges `patches[origin] = p` (patch.go:109) with the later assignment of
+`p.originBytes` (patch.go:125-129) because nothing else can run on that location in between.  The error branches of
+`replaceFunc` (already-patched sentinel, function too small) are not followed: reaching one is recorded in `faults`, and the
+builder API cannot reach them with disjoint targets (the differential rounds check `faults` is empty).
+`Guard.Restore`, `patch.Unpatch`, `patch.UnpatchInstanceMethod`, `patch.UnpatchAll` are not sections: nothing in the builder API
+calls them (checked on every run); the last three touch `patches` WITHOUT `patchesLock`.
+
 What is NOT in the model: the individual byte stores of `copy` (a 13-byte write is one step), instruction
 fetch, the Go memory model for fields other than the ones listed in `Var`, the garbage collector.
 -/
